@@ -6,6 +6,10 @@ mod c01;
 #[cfg(kani)]
 mod c02;
 #[cfg(kani)]
+mod c04;
+#[cfg(kani)]
+mod c07;
+#[cfg(kani)]
 mod c11;
 #[cfg(kani)]
 mod c15;
